@@ -219,7 +219,10 @@ fn rewrite_fn(name: &str, sig: &mut Signature, block: &mut Block, unit: &Unit, l
             let p = ident(&spec.param);
             let ty: Type = syn::parse_str(&spec.ty).unwrap_or_else(|e| fail(&format!("bad tls type: {e}")));
             let arg: FnArg = parse_quote!(#p: #ty);
-            sig.inputs.push(arg);
+            let dup = sig.inputs.iter().any(|a| matches!(a, FnArg::Typed(pt) if pt.pat.to_token_stream().to_string() == spec.param));
+            if !dup {
+                sig.inputs.push(arg);
+            }
         }
     }
     let mut rw = Body::new(unit, log, name.to_string(), lifted);
@@ -234,11 +237,12 @@ pub struct Body<'a> {
     counter: usize,
     closure_counter: usize,
     lifted: &'a mut Vec<Item>,
+    rev_ranges: Vec<(String, Expr, Expr)>,
 }
 
 impl<'a> Body<'a> {
     pub fn new(unit: &'a Unit, log: &'a mut Log, func: String, lifted: &'a mut Vec<Item>) -> Self {
-        Body { unit, log, func, counter: 0, closure_counter: 0, lifted }
+        Body { unit, log, func, counter: 0, closure_counter: 0, lifted, rev_ranges: vec![] }
     }
 
     fn note(&mut self, rule: &str, detail: String) {
@@ -259,7 +263,38 @@ impl<'a> Body<'a> {
         k
     }
 
-    fn finish_fn(&mut self, _sig: &mut Signature, _block: &mut Block) {}
+    fn finish_fn(&mut self, sig: &mut Signature, block: &mut Block) {
+        // R2': after a `TLS.with(|x| { .. return; .. })` closure was inlined, its bare `return;` is an early exit to the
+        // function's tail expression E (side-effect free: a plain variable)
+        if matches!(sig.output, ReturnType::Default) {
+            return;
+        }
+        let tail = match block.stmts.last() {
+            Some(Stmt::Expr(e @ Expr::Path(_), None)) => e.clone(),
+            _ => return,
+        };
+        struct Ret<'x> {
+            tail: &'x Expr,
+            hits: usize,
+        }
+        impl<'x> VisitMut for Ret<'x> {
+            fn visit_expr_mut(&mut self, e: &mut Expr) {
+                match e {
+                    Expr::Closure(_) => {}
+                    Expr::Return(r) if r.expr.is_none() => {
+                        r.expr = Some(Box::new(self.tail.clone()));
+                        self.hits += 1;
+                    }
+                    _ => visit_mut::visit_expr_mut(self, e),
+                }
+            }
+        }
+        let mut r = Ret { tail: &tail, hits: 0 };
+        r.visit_block_mut(block);
+        if r.hits > 0 {
+            self.note("R2'", format!("{} bare `return;` of an inlined thread-local closure -> `return {};`", r.hits, tail.to_token_stream()));
+        }
+    }
 
     // ---------------------------------------------------------------- expression rules
 
@@ -291,6 +326,7 @@ impl<'a> Body<'a> {
                 self.note("R23", "panic!(..) -> vpanic() [obligation: unreachable]".into());
                 Some(parse_expr(quote!(vpanic())))
             }
+            "__vclo" => None,
             _ => None,
         }
     }
@@ -332,6 +368,26 @@ impl<'a> Body<'a> {
                         }
                     }
                 }
+                if method == "with" && m.args.len() == 1 {
+                    // R2: TLSNAME.with(|v| BODY)  ->  { let v = &mut param.TLSNAME; BODY }
+                    if let Expr::Path(rp) = &*m.receiver {
+                        if let Some(name) = rp.path.get_ident().map(|i| i.to_string()) {
+                            if let Some(spec) = self.unit.tls.get(&name) {
+                                if let Expr::Closure(cl) = &m.args[0] {
+                                    if cl.inputs.len() == 1 {
+                                        let v = &cl.inputs[0];
+                                        let p = ident(&spec.param);
+                                        let f = ident(&name);
+                                        let body = &cl.body;
+                                        self.note("R2", format!("{name}.with(|{}| ..) -> block over the `{}` parameter", v.to_token_stream(), spec.param));
+                                        *e = parse_expr(quote!({ let #v = &mut #p.#f; #body }));
+                                        return;
+                                    }
+                                }
+                            }
+                        }
+                    }
+                }
                 if self.opt("strip_refcell") && (method == "borrow_mut" || method == "borrow") && m.args.is_empty() {
                     // X.borrow_mut().m(..) -> X.m(..) : handled by replacing the call by its receiver
                     let r = (*m.receiver).clone();
@@ -360,6 +416,24 @@ impl<'a> Body<'a> {
                 }
             }
             Expr::Call(c) => {
+                // R2: calls of functions that received a thread-local parameter pass it on
+                if let Expr::Path(fp) = &*c.func {
+                    if let Some(last) = fp.path.segments.last() {
+                        let callee = last.ident.to_string();
+                        let mut extra: Vec<Expr> = vec![];
+                        let mut seen: Vec<String> = vec![];
+                        for (_n, spec) in self.unit.tls.iter() {
+                            if spec.fns.iter().any(|f| *f == callee) && !seen.contains(&spec.param) {
+                                seen.push(spec.param.clone());
+                                let p = ident(&spec.param);
+                                extra.push(parse_expr(quote!(#p)));
+                            }
+                        }
+                        for x in extra {
+                            c.args.push(x);
+                        }
+                    }
+                }
                 let f = c.func.to_token_stream().to_string().replace(' ', "");
                 if self.opt("strip_refcell") && f == "RefCell::new" && c.args.len() == 1 {
                     let a = c.args[0].clone();
@@ -407,8 +481,20 @@ impl<'a> Body<'a> {
                 if let Some(v) = self.rule_hoist_range(fl) {
                     return v;
                 }
+                if let Some(v) = self.rule_rev_range(fl) {
+                    return v;
+                }
                 if let Some(v) = self.rule_slice_iter(fl) {
                     return v;
+                }
+                vec![stmt]
+            }
+            Stmt::Local(l) => {
+                // remember `let X = (a..b).rev();`
+                if let (Pat::Ident(pi), Some(init)) = (&l.pat, &l.init) {
+                    if let Some((a, b)) = as_rev_range(&init.expr) {
+                        self.rev_ranges.push((pi.ident.to_string(), a, b));
+                    }
                 }
                 vec![stmt]
             }
@@ -524,6 +610,38 @@ impl<'a> Body<'a> {
         )))
     }
 
+    /// R15: for x in (a..b).rev() / X.clone() with X = (a..b).rev()  ->  index-driven while (continue/break keep their meaning)
+    fn rule_rev_range(&mut self, fl: &ExprForLoop) -> Option<Vec<Stmt>> {
+        let mut e: &Expr = &fl.expr;
+        if let Expr::MethodCall(m) = e {
+            if m.method == "clone" && m.args.is_empty() {
+                e = &m.receiver;
+            }
+        }
+        let (a, b) = if let Some(ab) = as_rev_range(e) {
+            ab
+        } else if let Expr::Path(p) = e {
+            let name = p.path.get_ident()?.to_string();
+            let hit = self.rev_ranges.iter().find(|(n, _, _)| *n == name)?;
+            (hit.1.clone(), hit.2.clone())
+        } else {
+            return None;
+        };
+        if !(is_simple(&a) && is_simple(&b)) {
+            return None;
+        }
+        let Pat::Ident(pi) = &*fl.pat else { return None };
+        let x = &pi.ident;
+        let k = self.fresh();
+        let it = ident(&format!("__{}{}", x, k));
+        let body = &fl.body.stmts;
+        self.note("R15", format!("for {} in ({}..{}).rev() -> decrementing while loop", x, a.to_token_stream(), b.to_token_stream()));
+        Some(parse_stmts(quote!(
+            let mut #it = #b;
+            while #it > #a { #it -= 1; let #x = #it; #(#body)* }
+        )))
+    }
+
     /// R6: v.extend(E.iter().map(F));
     fn rule_extend_map(&mut self, mc: &ExprMethodCall) -> Option<Vec<Stmt>> {
         if mc.method != "extend" || mc.args.len() != 1 {
@@ -552,6 +670,22 @@ impl<'a> Body<'a> {
     }
 }
 
+fn as_rev_range(e: &Expr) -> Option<(Expr, Expr)> {
+    let Expr::MethodCall(m) = e else { return None };
+    if m.method != "rev" || !m.args.is_empty() {
+        return None;
+    }
+    let Expr::Range(r) = strip_paren(&m.receiver) else { return None };
+    if !matches!(r.limits, RangeLimits::HalfOpen(_)) {
+        return None;
+    }
+    Some(((**r.start.as_ref()?).clone(), (**r.end.as_ref()?).clone()))
+}
+
+fn is_simple(e: &Expr) -> bool {
+    matches!(e, Expr::Path(_) | Expr::Lit(_))
+}
+
 fn strip_paren(e: &Expr) -> &Expr {
     match e {
         Expr::Paren(p) => strip_paren(&p.expr),
@@ -577,8 +711,25 @@ impl<'a> VisitMut for Body<'a> {
                 return;
             }
         }
-        if let Expr::Closure(_) = e {
+        if let Expr::Closure(cl) = e {
+            let key = format!("{}#{}", self.func.rsplit("::").next().unwrap(), self.closure_counter);
             self.closure_counter += 1;
+            if let Some(sig) = self.unit.closure_sig.get(&key) {
+                // R17: explicit parameter types, return type and a block body (annotation only; body text unchanged)
+                let proto: ExprClosure = syn::parse_str(&format!("|{}| -> {} {{ }}", sig.params, sig.ret)).unwrap_or_else(|e| fail(&format!("bad closure_sig for {key}: {e}")));
+                cl.inputs = proto.inputs;
+                cl.output = proto.output;
+                let b = &cl.body;
+                let lit = proc_macro2::Literal::string(&key);
+                cl.body = Box::new(match &**b {
+                    Expr::Block(eb) => {
+                        let st = &eb.block.stmts;
+                        parse_expr(quote!({ __vclo!(#lit); #(#st)* }))
+                    }
+                    other => parse_expr(quote!({ __vclo!(#lit); #other })),
+                });
+                self.note("R17", format!("closure {key}: explicit signature"));
+            }
         }
         visit_mut::visit_expr_mut(self, e);
         self.rewrite_expr_post(e);
@@ -591,6 +742,7 @@ impl<'a> VisitMut for Body<'a> {
             // statement macros
             let st = match st {
                 Stmt::Macro(sm) => match self.rewrite_macro_expr(&sm.mac) {
+                    Some(e) if sm.mac.path.is_ident("panic") => Stmt::Expr(parse_expr(quote!(return #e)), Some(Default::default())),
                     Some(e) => Stmt::Expr(e, Some(Default::default())),
                     None => Stmt::Macro(sm),
                 },
